@@ -1,1 +1,296 @@
-fn main() {}
+//! allocmc — C18: steady-state reading allocates nothing and keeps the buffer size.
+//! Own binary because it installs a counting global allocator (per-thread enable flag, so only the
+//! measured thread and window are counted).
+
+#![allow(dead_code)]
+
+mod env;
+mod gen;
+mod obs;
+mod rdr;
+mod sweep;
+
+use gen::*;
+use obs::esc;
+use rdr::Format;
+use serde_json::json;
+use std::alloc::{GlobalAlloc, Layout, System};
+use std::cell::Cell;
+use sweep::*;
+
+struct Counting;
+
+thread_local! {
+    static ON: Cell<bool> = const { Cell::new(false) };
+    static COUNT: Cell<u64> = const { Cell::new(0) };
+}
+
+unsafe impl GlobalAlloc for Counting {
+    unsafe fn alloc(&self, l: Layout) -> *mut u8 {
+        let _ = ON.try_with(|on| {
+            if on.get() {
+                let _ = COUNT.try_with(|c| c.set(c.get() + 1));
+            }
+        });
+        System.alloc(l)
+    }
+    unsafe fn dealloc(&self, p: *mut u8, l: Layout) {
+        System.dealloc(p, l)
+    }
+    unsafe fn realloc(&self, p: *mut u8, l: Layout, n: usize) -> *mut u8 {
+        let _ = ON.try_with(|on| {
+            if on.get() {
+                let _ = COUNT.try_with(|c| c.set(c.get() + 1));
+            }
+        });
+        System.realloc(p, l, n)
+    }
+}
+
+#[global_allocator]
+static A: Counting = Counting;
+
+fn measure<F: FnOnce()>(f: F) -> u64 {
+    COUNT.with(|c| c.set(0));
+    ON.with(|o| o.set(true));
+    f();
+    ON.with(|o| o.set(false));
+    COUNT.with(|c| c.get())
+}
+
+struct CountPolicy(usize);
+impl seq_io::policy::BufPolicy for CountPolicy {
+    fn grow_to(&mut self, cur: usize) -> Option<usize> {
+        self.0 += 1;
+        Some(cur * 2)
+    }
+}
+
+/// one uniform record of the given shape
+fn record_bytes(format: Format, lines: usize, line_len: usize, crlf: bool) -> Vec<u8> {
+    let nl: &[u8] = if crlf { b"\r\n" } else { b"\n" };
+    let mut t = vec![];
+    match format {
+        Format::Fasta => {
+            t.extend_from_slice(b">xy x");
+            t.extend_from_slice(nl);
+            for _ in 0..lines {
+                t.extend(std::iter::repeat(b'x').take(line_len));
+                t.extend_from_slice(nl);
+            }
+        }
+        Format::Fastq => {
+            t.extend_from_slice(b"@xy x");
+            t.extend_from_slice(nl);
+            t.extend(std::iter::repeat(b'x').take(line_len));
+            t.extend_from_slice(nl);
+            t.extend_from_slice(b"+");
+            t.extend_from_slice(nl);
+            t.extend(std::iter::repeat(b'y').take(line_len));
+            t.extend_from_slice(nl);
+        }
+    }
+    t
+}
+
+struct Cfg {
+    format: Format,
+    lines: usize,
+    line_len: usize,
+    crlf: bool,
+    cap: usize,
+    set: bool,
+}
+
+/// returns (allocations in the window, capacity changed, policy calls in the window, records measured)
+fn run_cfg(c: &Cfg) -> (u64, bool, usize, u64, String) {
+    let rec = record_bytes(c.format, c.lines, c.line_len, c.crlf);
+    let rl = rec.len();
+    // warm-up: rl + 2 batches / records; measured window: 3 further periods
+    let per_batch = (c.cap / rl).max(1);
+    let nrec = if c.set { (4 * (rl + 2) + 4) * per_batch + 8 } else { 4 * (rl + 2) + 8 };
+    let template: Vec<u8> = rec.iter().cloned().cycle().take(rl * nrec).collect();
+    let data = instantiate(&template);
+    let mut info = String::new();
+    let mut measured = 0u64;
+    let (allocs, cap_changed, pol);
+    match c.format {
+        Format::Fasta => {
+            use seq_io::fasta::{Reader, Record, RecordSet};
+            let mut rdr = Reader::with_capacity(&data[..], c.cap).set_policy(CountPolicy(0));
+            if c.set {
+                let mut set = RecordSet::default();
+                for _ in 0..rl + 2 {
+                    rdr.read_record_set(&mut set).unwrap().unwrap();
+                }
+                let (cap0, bc0, p0) = (rdr.verif_capacity(), set.buf_capacity(), rdr.policy().0);
+                let mut sink = 0usize;
+                allocs = measure(|| {
+                    for _ in 0..3 * (rl + 2) {
+                        rdr.read_record_set(&mut set).unwrap().unwrap();
+                        for r in &set {
+                            sink += r.head().len() + r.seq().len();
+                            for l in r.seq_lines() {
+                                sink += l.len();
+                            }
+                            measured += 1;
+                        }
+                    }
+                });
+                std::hint::black_box(sink);
+                cap_changed = rdr.verif_capacity() != cap0 || set.buf_capacity() != bc0;
+                pol = rdr.policy().0 - p0;
+                info = format!("reader capacity {} -> {}, set buffer capacity {} -> {}", cap0, rdr.verif_capacity(), bc0, set.buf_capacity());
+            } else {
+                for _ in 0..rl + 2 {
+                    rdr.next().unwrap().unwrap();
+                }
+                let (cap0, p0) = (rdr.verif_capacity(), rdr.policy().0);
+                let mut sink = 0usize;
+                allocs = measure(|| {
+                    for _ in 0..3 * (rl + 2) {
+                        let r = rdr.next().unwrap().unwrap();
+                        sink += r.head().len() + r.seq().len() + r.id_bytes().len();
+                        for l in r.seq_lines() {
+                            sink += l.len();
+                        }
+                        measured += 1;
+                    }
+                });
+                std::hint::black_box(sink);
+                cap_changed = rdr.verif_capacity() != cap0;
+                pol = rdr.policy().0 - p0;
+                info = format!("reader capacity {} -> {}", cap0, rdr.verif_capacity());
+            }
+        }
+        Format::Fastq => {
+            use seq_io::fastq::{Reader, Record, RecordSet};
+            let mut rdr = Reader::with_capacity(&data[..], c.cap).set_policy(CountPolicy(0));
+            if c.set {
+                let mut set = RecordSet::default();
+                for _ in 0..rl + 2 {
+                    rdr.read_record_set(&mut set).unwrap().unwrap();
+                }
+                let (cap0, bc0, p0) = (rdr.verif_capacity(), set.buf_capacity(), rdr.policy().0);
+                let mut sink = 0usize;
+                allocs = measure(|| {
+                    for _ in 0..3 * (rl + 2) {
+                        rdr.read_record_set(&mut set).unwrap().unwrap();
+                        for r in &set {
+                            sink += r.head().len() + r.seq().len() + r.qual().len();
+                            measured += 1;
+                        }
+                    }
+                });
+                std::hint::black_box(sink);
+                cap_changed = rdr.verif_capacity() != cap0 || set.buf_capacity() != bc0;
+                pol = rdr.policy().0 - p0;
+                info = format!("reader capacity {} -> {}, set buffer capacity {} -> {}", cap0, rdr.verif_capacity(), bc0, set.buf_capacity());
+            } else {
+                for _ in 0..rl + 2 {
+                    rdr.next().unwrap().unwrap();
+                }
+                let (cap0, p0) = (rdr.verif_capacity(), rdr.policy().0);
+                let mut sink = 0usize;
+                allocs = measure(|| {
+                    for _ in 0..3 * (rl + 2) {
+                        let r = rdr.next().unwrap().unwrap();
+                        sink += r.head().len() + r.seq().len() + r.qual().len() + r.id_bytes().len();
+                        measured += 1;
+                    }
+                });
+                std::hint::black_box(sink);
+                cap_changed = rdr.verif_capacity() != cap0;
+                pol = rdr.policy().0 - p0;
+                info = format!("reader capacity {} -> {}", cap0, rdr.verif_capacity());
+            }
+        }
+    }
+    (allocs, cap_changed, pol, measured, info)
+}
+
+fn main() {
+    let args: Vec<String> = std::env::args().collect();
+    if args.len() >= 3 && args[1] == "replay" {
+        let text = std::fs::read_to_string(&args[2]).expect("replay file");
+        let v: serde_json::Value = serde_json::from_str(&text).unwrap();
+        let r = &v["replay"];
+        let c = Cfg {
+            format: if r["format"] == "fasta" { Format::Fasta } else { Format::Fastq },
+            lines: r["lines"].as_u64().unwrap() as usize,
+            line_len: r["line_len"].as_u64().unwrap() as usize,
+            crlf: r["crlf"].as_bool().unwrap(),
+            cap: r["cap"].as_u64().unwrap() as usize,
+            set: r["set"].as_bool().unwrap(),
+        };
+        let a = run_cfg(&c);
+        let b = run_cfg(&c);
+        println!("allocations in the measured window: {} (second run {}), capacity changed: {}, policy calls: {}, records measured {}; {}", a.0, b.0, a.1, a.2, a.3, a.4);
+        std::process::exit(if a.0 == 0 && !a.1 && a.2 == 0 { 0 } else { 1 });
+    }
+    if args.len() < 3 || args[1] != "C18" {
+        eprintln!("usage: allocmc C18 <quick|thorough> | allocmc replay <file>");
+        std::process::exit(2);
+    }
+    let thorough = args[2] == "thorough";
+    let mut cfgs = vec![];
+    for format in [Format::Fasta, Format::Fastq] {
+        let line_choices: &[usize] = if format == Format::Fasta { &[1, 2, 3] } else { &[1] };
+        for &lines in line_choices {
+            let lens: &[usize] = if thorough { &[1, 4, 9, 17] } else { &[4, 9] };
+            for &line_len in lens {
+                for crlf in [false, true] {
+                    let rl = record_bytes(format, lines, line_len, crlf).len();
+                    let step = if thorough { 1 } else { 1 };
+                    let mut cap = rl + 1;
+                    while cap <= 5 * rl {
+                        for set in [false, true] {
+                            cfgs.push(Cfg { format, lines, line_len, crlf, cap, set });
+                        }
+                        cap += step;
+                    }
+                    for set in [false, true] {
+                        cfgs.push(Cfg { format, lines, line_len, crlf, cap: 65536, set });
+                    }
+                }
+            }
+        }
+    }
+    start_watchdog(120);
+    let tot = par_sweep(cfgs.len() as u64, 1, |idx, l| {
+        let c = &cfgs[idx as usize];
+        let (allocs, cap_changed, pol, measured, info) = run_cfg(c);
+        l.evals += 1;
+        if measured > 0 {
+            l.nontrivial += 1;
+        }
+        l.count("records_in_measured_windows", measured);
+        l.count("transitions", measured);
+        if allocs != 0 || cap_changed || pol != 0 {
+            let what = if allocs != 0 { "allocation" } else if pol != 0 { "policy-consulted" } else { "capacity-changed" };
+            l.violation(Violation {
+                property: "C18".into(),
+                sig: format!("{}|{}|{}", c.format.name(), if c.set { "record-set" } else { "next" }, what),
+                detail: format!("{} records with {} sequence line(s) of {} bytes (crlf {}), capacity {}, {}: {} heap allocations in the measured window of {} records, {} policy calls; {}", c.format.name(), c.lines, c.line_len, c.crlf, c.cap, if c.set { "reused record set" } else { "next()" }, allocs, measured, pol, info),
+                weight: (c.cap + c.line_len * 1000) as u64,
+                replay: json!({"kind": "alloc", "format": c.format.name(), "lines": c.lines, "line_len": c.line_len, "crlf": c.crlf, "cap": c.cap, "set": c.set}),
+            });
+        }
+        if idx % 211 == 7 && l.samples.len() < 2 {
+            l.samples.push(json!({"format": c.format.name(), "record": esc(&instantiate(&record_bytes(c.format, c.lines, c.line_len, c.crlf))), "capacity": c.cap, "reused_set": c.set, "allocations": allocs, "records_measured": measured}));
+        }
+    });
+    DONE.store(true, std::sync::atomic::Ordering::Relaxed);
+    let code = finish(
+        Report {
+            property: "C18".into(),
+            tier: args[2].clone(),
+            rule: "formats x uniform record shapes (FASTA 1-3 sequence lines, FASTQ) x line lengths x LF/CRLF x EVERY capacity from record length + 1 to 5 record lengths (and 64 KiB) x {next(), read_record_set into one reused set}: warm-up over record length + 2 records / batches (a full period of the batch-size pattern), then 3 further periods measured with a counting global allocator (thread-local window) while all borrowed accessors are called: allocation count must be 0, reader capacity and RecordSet::buf_capacity() unchanged, policy not consulted; non-trivial = every configuration (all measure > 0 records)".into(),
+            exhaustive: true,
+            assumptions: vec!["allocations of the measured thread only; uniform record streams (records of varying shape may legitimately allocate when a slot of a reused set first meets a record with more lines)".into()],
+            extra: json!({"states_note": "states = configurations; transitions = records read inside measured windows"}),
+        },
+        tot,
+    );
+    std::process::exit(code);
+}
